@@ -351,6 +351,9 @@ func (b *progBuilder) stmts(n, depth, first int) {
 // illTyped emits the planted ill-typed operation and returns the item index of the operand.
 func (b *progBuilder) illTyped(gap int) int {
 	marker := fmt.Sprintf("zq%d", rapid.IntRange(10, 99).Draw(b.rt, "marker"))
+	if rapid.IntRange(0, 2).Draw(b.rt, "pct") == 0 {
+		marker = "z%" + marker[2:] // the operand's text ends up in the error message: a % must stay a %
+	}
 	b.tok(gap, kID, b.fresh("w"))
 	b.tok(gAny, kSYM, ":=")
 	op := pick(b.rt, "iop", []string{"+", "-", "*", "/", "//", "%"})
